@@ -11,6 +11,16 @@ NOTE = ("Trusted: CrossHair 0.0.110 + z3, the overlay venv, the environment stub
         "isinstance shim), the harness oracles under /verif/vf. Grammars are a fixed corpus (classes cannot be symbolic); all bounds are in evidence.assumptions.")
 
 CLAIMED = {
+    "C20": dict(
+        text="CSVSearchRecorder (default fields, extra fields) and SimpleGP.build_recorder's wrapping of user callbacks run under the real single- and "
+             "multi-objective trackers with symbolic fitness selectors, symbolic direction and recording mode; the file is really written, and after "
+             "construction and after EVERY registration the bytes on disk are re-read and parsed by an independent splitter: complete final line, "
+             "header == configured fields, every row of the header's arity, rows == registrations that should have been written, and in each row "
+             "FitnessK == the K-th component of THAT individual and every extra column == its own callback on that individual's program. Every "
+             "evaluation history (ties, improvements, non-improvements) is a path; path trees exhausted. Bounds: 1-3 objectives, 2-4 registrations, "
+             "0-2 extra fields, rows far below the stdio buffer.",
+        design_ref="DESIGN.md section 4 (C20)",
+    ),
     "C16": dict(
         text="ElitismStep (list and one-shot iterator input, with duplicate individuals), sort_population / best_individual / is_better and one "
              "generation of a ParallelStep that reserves an elitism slot run with the fitness of every individual a symbolic selector into a table of "
